@@ -16,6 +16,17 @@
 //!          | k                     kill()          | s   stop(None)       | d   drain()
 //!          | a                     advance the virtual clock by 1000 ms
 //!   every op is followed by a quiescence barrier and a status sample.
+//!   thr sup=<0|1> exit=<none|publish|between> ; <op> ; ...      controlled OS threads (hook points)
+//!     the actor runs on its own runtime thread, every waiter on its own OS thread with a hand-made
+//!     executor; `ractor::actor::verif::point` parks a thread once at the label of its plan
+//!     op ::= ws <k> <none|notified|status>   start waiter thread k; it runs until it pauses at
+//!                                            wait.after_notified / wait.after_status, parks in the await, or returns
+//!          | x                               stop(); the exit runs until status.after_publish (for Stopped) /
+//!                                            notify.between per `exit=`, or to completion
+//!          | rw <k>                          resume the paused waiter k until it parks or returns
+//!          | rx                              resume the paused exit to completion
+//!     a waiter that is parked and was never woken when everything else has finished = lost wake-up
+//!     output: (observations, [], leaves, plans_not_hit)
 //! stdout, one Coq term per scenario:  (observations, statuses, number of pg Leave notifications)
 //!   observations: waiter completions in order, then the waiters still pending at the end,
 //!   each `mkObs w outcome (mkSnap status name pid pg ps_active ps_done children sup)`.
@@ -572,6 +583,401 @@ async fn run_scenario(line: &str) -> String {
     format!("({}, {}, {})", coq_list(&obs), coq_list(&sts), leaves_at_end)
 }
 
+// ------------------------------------------------------------------------------------------
+// controlled-thread engine
+mod thr {
+    use super::*;
+    use std::cell::Cell;
+    use std::collections::{HashMap, HashSet, VecDeque};
+    use std::sync::{Condvar, OnceLock};
+
+    #[derive(Clone, Copy, PartialEq, Eq, Hash, Debug)]
+    pub enum Role {
+        Waiter(u64),
+        Exit,
+    }
+    #[derive(Clone, Copy, Debug, PartialEq)]
+    pub enum Ev {
+        Paused(&'static str),
+        Parked(u64),
+        Done,
+    }
+    #[derive(Default)]
+    pub struct CtlState {
+        pub plan: HashMap<Role, &'static str>,
+        pub used: HashSet<Role>,
+        pub resume: HashSet<Role>,
+        pub events: HashMap<Role, VecDeque<Ev>>,
+        pub wakes: HashMap<u64, u64>,
+        pub main: Option<ActorCell>,
+    }
+    pub struct Ctl {
+        pub st: Mutex<CtlState>,
+        pub cv: Condvar,
+    }
+    thread_local! { pub static ROLE: Cell<Option<Role>> = const { Cell::new(None) }; }
+    static CTL: OnceLock<Arc<Ctl>> = OnceLock::new();
+
+    pub fn ctl() -> Arc<Ctl> {
+        CTL.get_or_init(|| {
+            let c = Arc::new(Ctl { st: Mutex::new(CtlState::default()), cv: Condvar::new() });
+            let c2 = c.clone();
+            ractor::actor::verif::set_point_hook(Some(Arc::new(move |label| c2.at_point(label))));
+            c
+        })
+        .clone()
+    }
+
+    impl Ctl {
+        pub fn reset(&self) {
+            *self.st.lock().unwrap() = CtlState::default();
+        }
+        fn at_point(&self, label: &'static str) {
+            let Some(role) = ROLE.with(|r| r.get()) else { return };
+            let mut st = self.st.lock().unwrap();
+            if st.plan.get(&role) != Some(&label) || st.used.contains(&role) {
+                return;
+            }
+            if matches!(label, "status.after_publish" | "notify.between") {
+                // only the actor's own final transition
+                let stopped = st.main.as_ref().map(|c| c.get_status() == ActorStatus::Stopped).unwrap_or(false);
+                if !stopped {
+                    return;
+                }
+            }
+            st.used.insert(role);
+            st.events.entry(role).or_default().push_back(Ev::Paused(label));
+            self.cv.notify_all();
+            while !st.resume.contains(&role) {
+                st = self.cv.wait(st).unwrap();
+            }
+            st.resume.remove(&role);
+        }
+        pub fn push(&self, role: Role, ev: Ev) {
+            let mut st = self.st.lock().unwrap();
+            st.events.entry(role).or_default().push_back(ev);
+            self.cv.notify_all();
+        }
+        pub fn wait_event(&self, role: Role) -> Ev {
+            let mut st = self.st.lock().unwrap();
+            loop {
+                if let Some(e) = st.events.entry(role).or_default().pop_front() {
+                    return e;
+                }
+                st = self.cv.wait(st).unwrap();
+            }
+        }
+        pub fn resume(&self, role: Role) {
+            let mut st = self.st.lock().unwrap();
+            st.resume.insert(role);
+            self.cv.notify_all();
+        }
+        pub fn wakes(&self, k: u64) -> u64 {
+            *self.st.lock().unwrap().wakes.get(&k).unwrap_or(&0)
+        }
+    }
+
+    struct ThreadWaker {
+        k: u64,
+        ctl: Arc<Ctl>,
+    }
+    impl Wake for ThreadWaker {
+        fn wake(self: Arc<Self>) {
+            let mut st = self.ctl.st.lock().unwrap();
+            *st.wakes.entry(self.k).or_default() += 1;
+            self.ctl.cv.notify_all();
+        }
+    }
+
+    enum Cmd {
+        Stop,
+        Finish,
+    }
+
+    pub fn run(line: &str) -> String {
+        let sid = SCN.fetch_add(1, Ordering::SeqCst);
+        let pid = std::process::id();
+        let mut parts = line.split(';').map(|p| p.trim());
+        let head: Vec<&str> = parts.next().unwrap().split_whitespace().collect();
+        let with_sup = kv(&head, "sup") == "1";
+        let exit_plan = match kv(&head, "exit") {
+            "publish" => Some("status.after_publish"),
+            "between" => Some("notify.between"),
+            _ => None,
+        };
+        let c = ctl();
+        c.reset();
+        if let Some(p) = exit_plan {
+            c.st.lock().unwrap().plan.insert(Role::Exit, p);
+        }
+        let name = format!("c06t-{pid}-{sid}");
+        let group = format!("c06tg-{pid}-{sid}");
+        let mark_prefix = format!("c06tm-{pid}-{sid}-");
+        let flags = Arc::new(Flags::default());
+        let sup_log = Arc::new(Mutex::new(Vec::<String>::new()));
+
+        // the actor's runtime thread
+        let (ready_tx, ready_rx) = std::sync::mpsc::channel::<(ActorCell, ActorCell, ActorCell)>();
+        let (cmd_tx, mut cmd_rx) = tokio::sync::mpsc::unbounded_channel::<Cmd>();
+        let (fin_tx, fin_rx) = std::sync::mpsc::channel::<()>();
+        let exit_thread = {
+            let (name, group, mark_prefix, flags, sup_log, c) =
+                (name.clone(), group.clone(), mark_prefix.clone(), flags.clone(), sup_log.clone(), c.clone());
+            std::thread::spawn(move || {
+                ROLE.with(|r| r.set(Some(Role::Exit)));
+                let rt = tokio::runtime::Builder::new_current_thread().enable_time().build().expect("rt");
+                rt.block_on(async move {
+                    let cfg = Cfg {
+                        pre: Res::Ok,
+                        pre_gate: None,
+                        post_start: Res::Ok,
+                        post_start_gate: None,
+                        ps: Res::Ok,
+                        ps_gate: None,
+                        handler_gate: Gate::new(),
+                        flags: flags.clone(),
+                    };
+                    let (sup_ref, _sh) = Actor::spawn(
+                        None,
+                        Sup { main_name: name.clone(), main_group: group.clone(), mark_prefix: mark_prefix.clone(), log: sup_log.clone() },
+                        (),
+                    )
+                    .await
+                    .expect("sup");
+                    let (marker, _mh) = Actor::spawn(None, Kid, ()).await.expect("marker");
+                    let (main, handle) = if with_sup {
+                        Actor::spawn_linked(Some(name.clone()), Main, cfg, sup_ref.get_cell()).await.expect("main")
+                    } else {
+                        Actor::spawn(Some(name.clone()), Main, cfg).await.expect("main")
+                    };
+                    pg::monitor(group.clone(), sup_ref.get_cell());
+                    pg::monitor(format!("{mark_prefix}final"), sup_ref.get_cell());
+                    pg::join(group.clone(), vec![main.get_cell()]);
+                    let (_kid, _kh) = Actor::spawn_linked(None, Kid, (), main.get_cell()).await.expect("kid");
+                    c.st.lock().unwrap().main = Some(main.get_cell());
+                    ready_tx.send((main.get_cell(), sup_ref.get_cell(), marker.get_cell())).unwrap();
+                    let mut handle = Some(handle);
+                    while let Some(cmd) = cmd_rx.recv().await {
+                        match cmd {
+                            Cmd::Stop => {
+                                main.stop(None);
+                                if let Some(h) = handle.take() {
+                                    let _ = h.await;
+                                }
+                                c.push(Role::Exit, Ev::Done);
+                            }
+                            Cmd::Finish => {
+                                // let the supervisor drain its port: a final marker, then wait for it
+                                pg::join(format!("{mark_prefix}final"), vec![marker.get_cell()]);
+                                loop {
+                                    if sup_log.lock().unwrap().iter().any(|e| e == "mark final") {
+                                        break;
+                                    }
+                                    tokio::task::yield_now().await;
+                                }
+                                main.kill();
+                                marker.stop(None);
+                                sup_ref.stop(None);
+                                for _ in 0..20 {
+                                    tokio::task::yield_now().await;
+                                }
+                                let _ = fin_tx.send(());
+                                break;
+                            }
+                        }
+                    }
+                });
+            })
+        };
+        let (main_cell, sup_cell, marker_cell) = ready_rx.recv().expect("setup");
+        let ctx = Arc::new(Ctx { cell: main_cell.clone(), name: name.clone(), group: group.clone(), flags: flags.clone() });
+        let done: Arc<Mutex<Vec<(u64, &'static str, Snap)>>> = Arc::new(Mutex::new(Vec::new()));
+        // waiter bookkeeping: last event of each waiter
+        let mut last: HashMap<u64, Ev> = HashMap::new();
+        let mut order: Vec<u64> = Vec::new();
+        let mut plans: HashMap<u64, Option<&'static str>> = HashMap::new();
+        let mut hit: HashSet<u64> = HashSet::new();
+        let mut exit_state: Option<Ev> = None;
+        let mut exit_hit = false;
+        let mut threads = Vec::new();
+
+        // after something that may have woken parked waiters: collect their next events
+        let settle_waiters = |last: &mut HashMap<u64, Ev>, order: &Vec<u64>| {
+            loop {
+                let mut progressed = false;
+                for k in order {
+                    if let Some(Ev::Parked(seen)) = last.get(k).copied() {
+                        if c.wakes(*k) > seen {
+                            let e = c.wait_event(Role::Waiter(*k));
+                            last.insert(*k, e);
+                            progressed = true;
+                        }
+                    }
+                }
+                if !progressed {
+                    break;
+                }
+            }
+        };
+
+        for op in parts {
+            let w: Vec<&str> = op.split_whitespace().collect();
+            if w.is_empty() {
+                continue;
+            }
+            match w[0] {
+                "ws" => {
+                    let k: u64 = w[1].parse().unwrap();
+                    let plan = match w[2] {
+                        "notified" => Some("wait.after_notified"),
+                        "status" => Some("wait.after_status"),
+                        _ => None,
+                    };
+                    plans.insert(k, plan);
+                    if let Some(p) = plan {
+                        c.st.lock().unwrap().plan.insert(Role::Waiter(k), p);
+                    }
+                    if with_sup {
+                        pg::monitor(format!("{mark_prefix}{k}"), sup_cell.clone());
+                    }
+                    let (ctx2, done2, c2, marker2, mg) =
+                        (ctx.clone(), done.clone(), c.clone(), marker_cell.clone(), format!("{mark_prefix}{k}"));
+                    threads.push(std::thread::spawn(move || {
+                        ROLE.with(|r| r.set(Some(Role::Waiter(k))));
+                        let cell = ctx2.cell.clone();
+                        let mut fut: Pin<Box<dyn Future<Output = ()> + Send>> = Box::pin(async move {
+                            let _ = cell.wait(None).await;
+                        });
+                        let waker = Waker::from(Arc::new(ThreadWaker { k, ctl: c2.clone() }));
+                        let mut cx = Context::from_waker(&waker);
+                        loop {
+                            let seen = c2.wakes(k);
+                            match fut.as_mut().poll(&mut cx) {
+                                Poll::Ready(()) => {
+                                    let snap = ctx2.snapshot();
+                                    done2.lock().unwrap().push((k, "ORet", snap));
+                                    pg::join(mg.clone(), vec![marker2.clone()]);
+                                    c2.push(Role::Waiter(k), Ev::Done);
+                                    break;
+                                }
+                                Poll::Pending => {
+                                    c2.push(Role::Waiter(k), Ev::Parked(seen));
+                                    let mut st = c2.st.lock().unwrap();
+                                    while *st.wakes.get(&k).unwrap_or(&0) <= seen {
+                                        if st.resume.contains(&Role::Waiter(k)) {
+                                            // scenario over: give up
+                                            return;
+                                        }
+                                        st = c2.cv.wait(st).unwrap();
+                                    }
+                                }
+                            }
+                        }
+                    }));
+                    order.push(k);
+                    let e = c.wait_event(Role::Waiter(k));
+                    if matches!(e, Ev::Paused(_)) {
+                        hit.insert(k);
+                    }
+                    last.insert(k, e);
+                }
+                "x" => {
+                    cmd_tx.send(Cmd::Stop).unwrap();
+                    let e = c.wait_event(Role::Exit);
+                    if matches!(e, Ev::Paused(_)) {
+                        exit_hit = true;
+                    }
+                    exit_state = Some(e);
+                    settle_waiters(&mut last, &order);
+                }
+                "rw" => {
+                    let k: u64 = w[1].parse().unwrap();
+                    if matches!(last.get(&k), Some(Ev::Paused(_))) {
+                        c.resume(Role::Waiter(k));
+                        let e = c.wait_event(Role::Waiter(k));
+                        last.insert(k, e);
+                    }
+                }
+                "rx" => {
+                    if matches!(exit_state, Some(Ev::Paused(_))) {
+                        c.resume(Role::Exit);
+                        let e = c.wait_event(Role::Exit);
+                        exit_state = Some(e);
+                    }
+                    settle_waiters(&mut last, &order);
+                }
+                o => panic!("bad thr op {o}"),
+            }
+        }
+        // finish whatever the scenario left paused
+        for k in order.clone() {
+            if matches!(last.get(&k), Some(Ev::Paused(_))) {
+                c.resume(Role::Waiter(k));
+                let e = c.wait_event(Role::Waiter(k));
+                last.insert(k, e);
+            }
+        }
+        let exit_complete = matches!(exit_state, Some(Ev::Done));
+        let final_snap = ctx.snapshot();
+        let term_at_end_probe = sup_log.clone();
+        // pending = parked and not woken
+        let mut pending: Vec<u64> = Vec::new();
+        for k in &order {
+            if let Some(Ev::Parked(seen)) = last.get(k).copied() {
+                if c.wakes(*k) <= seen {
+                    pending.push(*k);
+                }
+            }
+        }
+        let completed: Vec<(u64, &'static str, String)> = Vec::new();
+        let _ = completed;
+        // release everything: paused exit, parked waiters, then let the supervisor drain
+        if matches!(exit_state, Some(Ev::Paused(_))) {
+            c.resume(Role::Exit);
+            let _ = c.wait_event(Role::Exit);
+        }
+        for k in &pending {
+            c.resume(Role::Waiter(*k));
+        }
+        cmd_tx.send(Cmd::Finish).unwrap();
+        let _ = fin_rx.recv();
+        let _ = exit_thread.join();
+        for t in threads {
+            let _ = t.join();
+        }
+        let log = sup_log.lock().unwrap().clone();
+        let _ = term_at_end_probe;
+        let term_pos = log.iter().position(|e| e == "term");
+        let sup_at = |w: u64| -> bool {
+            if !with_sup {
+                return false;
+            }
+            let mark = log.iter().position(|e| *e == format!("mark {w}"));
+            matches!((term_pos, mark), (Some(t), Some(m)) if t < m)
+        };
+        let mut obs: Vec<String> = Vec::new();
+        for (w, out, snap) in done.lock().unwrap().iter() {
+            if !pending.contains(w) {
+                obs.push(format!("mkObs {} {} {}", w, out, snap_term(snap, sup_at(*w))));
+            }
+        }
+        for w in &pending {
+            obs.push(format!("mkObs {} OPending {}", w, snap_term(&final_snap, with_sup && exit_complete)));
+        }
+        let leaves = log.iter().filter(|e| *e == "leave").count();
+        let mut missed = 0;
+        for (k, p) in &plans {
+            if p.is_some() && !hit.contains(k) {
+                missed += 1;
+            }
+        }
+        if exit_plan.is_some() && !exit_hit {
+            missed += 1;
+        }
+        format!("({}, [], {}, {})", coq_list(&obs), leaves, missed)
+    }
+}
+
 fn main() {
     // the scripted callback panics are part of the scenarios; anything else is a harness bug
     std::panic::set_hook(Box::new(|info| {
@@ -584,6 +990,10 @@ fn main() {
     }));
     let mut out = Vec::new();
     for line in stdin_lines() {
+        if line.starts_with("thr ") {
+            out.push(thr::run(&line));
+            continue;
+        }
         let rt = tokio::runtime::Builder::new_current_thread()
             .enable_time()
             .start_paused(true)
